@@ -732,6 +732,11 @@ func parseFixtures() []pSpec {
 			{"blk", []pProd{P(A, sugar("star", rl("st")), C)}},
 			{"st", []pProd{P(B), P(rl("blk")), P(pTerm{kind: "error"}, B)}},
 		}},
+		{name: "errors-empty-prefix", tokens: []string{"Z", "Q"}, maxLen: 4, withErr: true, rules: []pRule{
+			{"s", []pProd{P(rl("pp"), pTerm{kind: "error"}, tk("Z")), P(tk("Q"))}},
+			{"pp", []pProd{P(rl("xx"))}},
+			{"xx", []pProd{P()}},
+		}},
 		{name: "bounds", bounds: true, tokens: []string{"A", "B", "C", "D", "E"}, maxLen: 5, rules: []pRule{
 			{"s", []pProd{P(sugar("opt", rl("x")), sugar("star", rl("y")), rl("z"), tk("D"))}},
 			{"x", []pProd{P(A)}},
@@ -821,7 +826,11 @@ func TestGeneratedParser(t *testing.T) {
 			label := fmt.Sprintf("%s input=%s", name, joinInts(in))
 			rep.count(len(in) > 2)
 			if got.Hung {
-				rep.fail("C09/parse-terminates", label, "parse() did not return within 3 s")
+				obl := "C09/parse-terminates"
+				if spec.name == "errors-empty-prefix" {
+					obl += "/error-term-after-empty-reductions"
+				}
+				rep.fail(obl, label, "parse() did not return within 3 s")
 				continue
 			}
 			if got.Panic != "" {
